@@ -150,10 +150,18 @@ def run_ctl(case):
             vals.append(int(df.values[0]))
         return [vals, bool(pc._update_suspended)]
 
-    out = [obs()]
+    from cogent3.maths.optimisers import ParameterOutOfBoundsError
+
+    # the controller's own topological order (the order in which a propagation visits the definitions)
+    order = [next(i for i, d in enumerate(defns) if d is x) for x in pc.defns]
+    out = [["order", order], obs()]
     for o in ops:
+        # a definition's update may raise (kind 4): the caller catches and carries on
         if o[0] == "assign":
-            pc.assign_all(f"p{o[1]}", value=float(o[2]))
+            try:
+                pc.assign_all(f"p{o[1]}", value=float(o[2]))
+            except ParameterOutOfBoundsError:
+                pass
         else:
             body, raises = o[1], o[2]
             try:
@@ -162,7 +170,7 @@ def run_ctl(case):
                         pc.assign_all(f"p{d}", value=float(v))
                     if raises:
                         raise Boom()
-            except Boom:
+            except (Boom, ParameterOutOfBoundsError):
                 pass
         out.append(obs())
     return out
@@ -197,6 +205,13 @@ def make_lf(spec):
     from cogent3 import get_model, make_tree
 
     tree = make_tree(spec["tree"])
+    if spec["model"] == "GS":
+        from cogent3 import get_moltype
+        from cogent3.evolve.ns_substitution_model import GeneralStationary
+
+        lf = GeneralStationary(get_moltype("dna").alphabet).make_likelihood_function(tree)
+        lf.set_alignment(get_aln("a", tree.get_tip_names(), spec["length"], spec["aln_seed"]))
+        return lf
     if spec.get("bins"):
         sm = get_model(spec["model"], ordered_param="rate", distribution="gamma")
         lf = sm.make_likelihood_function(tree, bins=int(spec["bins"]))
@@ -443,7 +458,32 @@ def run_lf(case):
         assert sorted(case["edges"]) == sorted(st.edges), (case["edges"], st.edges)
     out = []
 
+    tolerant = bool(case.get("tolerant"))     # settings may be rejected (inadmissible combination); the caller catches
+    rejected = [0]
+
+    def apply(s):
+        if not tolerant:
+            return apply_setting(lf, s)
+        try:
+            apply_setting(lf, s)
+        except Exception as e:  # noqa: BLE001
+            if type(e).__name__ not in ("ParameterOutOfBoundsError", "ArithmeticError", "LinAlgError", "ValueError"):
+                raise
+            rejected[0] += 1
+
     def record(tag, extra=None):
+        if tolerant:
+            # the newly built function may itself reject the current settings: then the specification says nothing
+            try:
+                fr = st.build(spec)
+                f_lnl, f_nfp = float(fr.get_log_likelihood()), int(fr.get_num_free_params())
+            except Exception:  # noqa: BLE001
+                out.append([tag + ":inadmissible", float(lf.get_log_likelihood()), None, int(lf.get_num_free_params()), None,
+                            dict(rejected=rejected[0]), None, {}])
+                return
+            out.append([tag, float(lf.get_log_likelihood()), f_lnl, int(lf.get_num_free_params()), f_nfp,
+                        dict(rejected=rejected[0]), None, {}])
+            return
         fr = st.build(spec)
         out.append([tag, float(lf.get_log_likelihood()), float(fr.get_log_likelihood()), int(lf.get_num_free_params()),
                     int(fr.get_num_free_params()), extra, roundtrip(spec, lf, st), scope_tables(lf)])
@@ -452,19 +492,23 @@ def run_lf(case):
     for o in ops:
         kind = o["op"]
         if kind == "set":
-            apply_setting(lf, o["s"])
-            st.track(o["s"])
+            st.track(o["s"])          # the leaf assignment is made before the propagation that may reject it
+            apply(o["s"])
             record("set:" + o["s"]["what"])
         elif kind == "postponed":
             try:
                 with lf.updates_postponed():
                     for s in o["body"]:
-                        apply_setting(lf, s)
                         st.track(s)
+                        apply(s)
                     if o["raises"]:
                         raise Boom()
             except Boom:
                 pass
+            except Exception:  # noqa: BLE001
+                if not tolerant:
+                    raise
+                rejected[0] += 1
             record("postponed-raise" if o["raises"] else "postponed")
         elif kind == "roundtrip":
             record("roundtrip")
